@@ -2,8 +2,8 @@
 from .. import lib, runner, regsim
 
 PROP = "C11"
-THEOREMS = ["RegPack.width_is_sum", "RegPack.access_guard", "RegPack.fields_contiguous", "RegPack.flatten_dict_order", "RegPack.flatten_list_order", "RegPack.read_value", "RegPack.read_value_bounded", "RegPack.write_slice", "RegPack.strobes_by_access"]
-IMPORTS = ["SocVerif.Props.C11"]
+THEOREMS = ["RegPack.width_is_sum", "RegPack.access_guard", "RegPack.fields_contiguous", "RegPack.flatten_dict_order", "RegPack.flatten_list_order", "RegPack.read_value", "RegPack.read_value_bounded", "RegPack.write_slice", "RegPack.strobes_by_access", "RegBridge.field_write_through_bus", "RegBridge.bus_read_returns_packed_fields", "RegBridge.packed_field", "RegBridge.field_read_strobe", "RegBridge.nonwritable_field_inert", "RegBridge.packed_eq"]
+IMPORTS = ["SocVerif.Props.C11", "SocVerif.Props.C11B"]
 
 
 def run(rep, tier):
